@@ -88,9 +88,12 @@ def one_batch(chk, drv, b):
         for v, ci, enc, m2 in staged:
             lines.append("DUMP %s %s" % (b.sid, bpgen.term(v)))
             lines.append("PARSE %s %d %s" % (b.sid, ci, W.hexs(enc)))
+            lines.append("MSGOK %s %s" % (b.sid, bpgen.term(v)))
         replies = drv.ask(lines)
         for i, (v, ci, enc, m2) in enumerate(staged):
-            rd, rp = replies[2 * i], replies[2 * i + 1]
+            rd, rp = replies[3 * i], replies[3 * i + 1]
+            # is this generated value inside the domain of the theorem (MsgOk, decided exactly by msgOkB)?
+            chk.count("theorem_domain_inside" if replies[3 * i + 2] == "1" else "theorem_domain_outside")
             if rd != W.hexs(enc):
                 chk.disagree("bytes", {"schema": b.schema_line(), "value": bpgen.term(v)}, rd, enc.hex())
             # observation of a fresh decode (obs reads attributes, so decode again)
@@ -105,7 +108,9 @@ def run(chk, drv):
     chk.extra["rule"] = ("random well-formed schemas over all field kinds × cardinalities (oneof groups, proto3 optional, wrappers, Timestamp/Duration, "
                          "maps over every key/value kind, recursive messages); values built through the constructor, biased to boundaries (0, ±1, int32/int64 "
                          "limits, ±0.0, inf, NaN, empty and non-BMP strings, empty containers, default-valued oneof/optional members, extreme datetimes/timedeltas). "
-                         "non-trivial = at least one constructor argument; distinct by (schema, value) line")
+                         "non-trivial = at least one constructor argument; distinct by (schema, value) line. "
+                         "Every case is also classified by the driver as inside / outside the hypothesis `MsgOk` of theorem roundtrip_nested_partial "
+                         "(counts theorem_domain_inside / theorem_domain_outside): outside = a field kind the theorem names as missing")
     nb = 80 if quick else 1200
     for bi in range(nb):
         b = W.Batch(chk.rng, "r%d" % bi, 12)
